@@ -624,6 +624,8 @@ func runC13(w *World, c *Check) {
 	ruleNoClobber(w, c, "C13.no-clobber", []string{"EType.DecryptData", "EType.DecryptMessage", "EType.VerifyIntegrity", "EType.VerifyChecksum", "EType.GetChecksumHash", "EType.DeriveKey", "EType.DeriveRandom",
 		"crypto.DecryptEncPart", "crypto.DecryptMessage"},
 		"the function does not write into the backing array of a byte slice it received")
+	c.Rule("C13.utc", "a time taken from the clock for a message field is converted to UTC first: KerberosTime is encoded as YYYYMMDDHHMMSSZ (RFC 4120 §5.2.3) and the encoder writes the value's own zone offset", 10)
+	ruleClockUTC(w, c, "C13.utc")
 	c.Rule("C13.flags", "flag i lives in byte i/8, bit 7-(i-8*(i/8)) in SetFlag, UnsetFlag and IsFlagSet; flags are 32 bits", 4)
 	c.Rule("C13.framing", "SPNEGO and KRB5 tokens are OID‖body in APPLICATION 0 on both sides; NegTokenInit/Resp are context tags 0/1 on both sides; ticket sequences are SEQUENCE (0x30)", 7)
 
@@ -680,6 +682,24 @@ func runC13(w *World, c *Check) {
 		c.Decide(ok, "C13.flags", FuncKey(fn), "32-bits", w.Pos(fn.Pos()), "a fresh flag set has 4 bytes", "Bytes is not a 4-byte buffer")
 	} else {
 		c.Missing("C13.flags", "types.NewKrbFlags")
+	}
+
+	// flags are at least 32 bits (RFC 4120 §5.2.8): setting or clearing a flag on a shorter (or empty)
+	// bit string first pads it to 4 octets — not merely as far as the flag's own octet, which would
+	// send a 1–3 octet string that every decoder (this one included) left-pads differently
+	for _, fk := range []string{"types.SetFlag", "types.UnsetFlag"} {
+		fn := w.Func(fk)
+		if fn == nil {
+			c.Missing("C13.flags", fk)
+			continue
+		}
+		fa := NewFuncAn(w, fn)
+		n := 0
+		for _, sub := range fa.withNewHelpers() {
+			n += len(sub.MatchGuard(GuardPat{Kind: "gt", X: "4", Y: `\$L\d+|len\(.*Bytes\)`, PassWhen: true}))
+			n += len(sub.MatchGuard(GuardPat{Kind: "gt", X: "32", Y: `.*BitLength`, PassWhen: true}))
+		}
+		c.Decide(n >= 1, "C13.flags", fk, "pads-to-32-bits", w.Pos(fn.Pos()), "a short bit string is padded to 4 octets before the flag is written", "no padding loop bounded by the constant 4 (octets) / 32 (bits)")
 	}
 
 	// ---- framing -----------------------------------------------------------------------
@@ -890,6 +910,47 @@ func ruleProcessingKeepsWire(w *World, c *Check, rule string) {
 			c.Fail(rule, fk, "wire-fields-kept", w.Pos(InstrPos(pos)), "processing stores only into helper fields of the message", fmt.Sprintf("stores into the encoded field(s) %v of the receiver: a later Marshal no longer reproduces what was decoded", bad))
 		} else {
 			c.Ok(rule, fk, "wire-fields-kept", w.Pos(fn.Pos()), "processing stores only into helper fields of the message")
+		}
+	}
+}
+
+// ruleClockUTC: in the packages that build protocol messages every time.Now() is used only as the
+// receiver of .UTC(). The ASN.1 encoder writes a GeneralizedTime with the zone offset of the
+// time.Time it is given; a local time therefore leaves the library as "…+0200", which RFC 4120
+// §5.2.3 forbids and strict peers reject — visible only when the process zone is not UTC.
+func ruleClockUTC(w *World, c *Check, rule string) {
+	scope := map[string]bool{"messages": true, "types": true, "kadmin": true, "spnego": true, "gssapi": true, "service": true, "pac": true, "credentials": true}
+	for _, fn := range w.ModuleFuncs() {
+		if fn.Pkg == nil || !scope[relPkg(fn.Pkg.Pkg.Path())] {
+			continue
+		}
+		for _, b := range fn.Blocks {
+			for _, in := range b.Instrs {
+				call, ok := in.(*ssa.Call)
+				if !ok {
+					continue
+				}
+				f := call.Call.StaticCallee()
+				if f == nil || calleeName(f) != "time.Now" {
+					continue
+				}
+				good := call.Referrers() != nil && len(*call.Referrers()) > 0
+				bad := ""
+				if good {
+					for _, ref := range *call.Referrers() {
+						switch x := ref.(type) {
+						case *ssa.DebugRef:
+						case *ssa.Call:
+							if g := x.Call.StaticCallee(); g == nil || calleeName(g) != "time.(Time).UTC" || len(x.Call.Args) == 0 || x.Call.Args[0] != ssa.Value(call) {
+								good, bad = false, x.String()
+							}
+						default:
+							good, bad = false, ref.String()
+						}
+					}
+				}
+				c.Decide(good, rule, FuncKey(fn), "clock-utc", w.Pos(InstrPos(call)), "the clock value is converted to UTC before any other use", "time.Now() is used as "+trunc(bad, 100)+": a local time reaches a message field or a comparison with one")
+			}
 		}
 	}
 }
